@@ -40,6 +40,8 @@
      on_reset_checks_done : whether downStream.OnResetStream itself returns when upstreamProcessDone is set (the tree tests that flag
                              only in proxy.onDownstreamEvent, for the streams of a closing connection); downStream.resetStream()
                              sets the flag BEFORE it resets the client stream and relies on the synchronous OnResetStream callback
+     disable_retry_first : whether doRetryCheck looks at the proxy_disable_retry variable of the request BEFORE anything else
+                             (otherwise only on routes with retry_on)
      res_counts_unlimited : whether resource.Increase / Decrease (cluster resource manager) count also while no limit is configured
                              (max == 0); CanCreate is true then in either case *)
 From Coq Require Import List ZArith Bool Arith Lia.
@@ -67,7 +69,7 @@ Record srcp := { loop_bound : nat; min_budget : nat; reset_guarded : bool; direc
   put_resets_cursor : bool; retry_checks_direct : bool; retry_refinalizes : bool; timers_reset_stream : bool; hijack_clears_body : bool;
   retry_clears_reuse : bool; setupretry_clears_reuse : bool; global_lost_cas_stops : bool; append_error_continues : bool;
   reset_excludes_global : bool; reset_reads_status : bool; res_counts_unlimited : bool;
-  send_once_per_upreq : bool; started_marked_first : bool; try_captures_id : bool; global_captures_id : bool; on_reset_checks_done : bool;
+  send_once_per_upreq : bool; started_marked_first : bool; try_captures_id : bool; global_captures_id : bool; on_reset_checks_done : bool; disable_retry_first : bool;
   reason_code : reason -> Z }.
 
 Record cfg := {
@@ -91,16 +93,19 @@ Record cfg := {
   c_nohost_from : option nat;
   (* the upstream stream layer keeps the client stream registered after it has handed the response over: a reset of that stream
      (connection closed right after the response) is still delivered to the proxy *)
-  c_late_reset : bool
+  c_late_reset : bool;
+  (* the request carries proxy_disable_retry = true (the HTTP/2 server stream sets it when the request body is streamed and cannot
+     be replayed): it must never be retried, whatever the route and the reason *)
+  c_disable_retry : bool
 }.
 
 #[export] Instance eta_cfg : Settable _ := settable! Build_cfg
   <c_oneway; c_data; c_trailers; c_route; c_nhosts; c_retry_on; c_num_retries; c_codes; c_try_timeout; c_max_retries; c_recv; c_send;
-   c_pool; c_delay; c_snd_err_hdr; c_snd_err_data; c_snd_err_trl; c_http; c_nohost_from; c_late_reset>.
+   c_pool; c_delay; c_snd_err_hdr; c_snd_err_data; c_snd_err_trl; c_http; c_nohost_from; c_late_reset; c_disable_retry>.
 #[export] Instance eta_srcp : Settable _ := settable! Build_srcp
   <loop_bound; min_budget; reset_guarded; direct_clears_again; direct_cancels_retry; direct_resets_upstream; put_resets_cursor; retry_checks_direct; retry_refinalizes;
    timers_reset_stream; hijack_clears_body; retry_clears_reuse;
-   setupretry_clears_reuse; global_lost_cas_stops; append_error_continues; reset_excludes_global; reset_reads_status; res_counts_unlimited; send_once_per_upreq; started_marked_first; try_captures_id; global_captures_id; on_reset_checks_done; reason_code>.
+   setupretry_clears_reuse; global_lost_cas_stops; append_error_continues; reset_excludes_global; reset_reads_status; res_counts_unlimited; send_once_per_upreq; started_marked_first; try_captures_id; global_captures_id; on_reset_checks_done; disable_retry_first; reason_code>.
 
 Inductive rkind := KUp | KHijack | KDirect.
 Record resp := { r_kind : rkind; r_code : Z; r_data : bool; r_trailers : bool;
@@ -260,6 +265,9 @@ Definition mapped_status (hdr : option Z) (s : st) : option Z :=
   end.
 Definition retry_check (hdr : option Z) (why : reason) (s : st) : bool := retry_rule (mapped_status hdr s) why.
 
+(* doRetryCheck: proxy_disable_retry of the request *)
+Definition retry_disabled : bool := c_disable_retry c && (disable_retry_first src || c_retry_on c).
+
 Inductive rstatus := RShould | RNo | ROver.
 (* retryState.retry(): reset(); shouldRetry; on ShouldRetry: Increase *)
 Definition rs_retry (code : option Z) (why : reason) (s : st) : st * list out * rstatus :=
@@ -268,7 +276,7 @@ Definition rs_retry (code : option Z) (why : reason) (s : st) : st * list out * 
   | None | Some O => (s1, o1, RNo)
   | Some (S n) =>
     let s2 := s1 <| retry := Some n |> in
-    if negb (retry_check code why s2) then (s2, o1, RNo)
+    if negb (retry_check code why s2) || retry_disabled then (s2, o1, RNo)
     else if negb (can_create s2) then (s2, o1, ROver)
     else let '(s3, o3) := res_inc s2 in (s3 <| reserved := true |>, o1 ++ o3, RShould)
   end.
